@@ -72,6 +72,8 @@ pub struct Case {
     /// path selections run on one compiled `Selector` per distinct path, kept for the whole batch (compile once, run per
     /// row), instead of on a selector built for the call
     pub reuse_selectors: bool,
+    /// the empty-buffer twins of all calls run after the whole batch instead of right after each call
+    pub twins_last: bool,
 }
 
 /// Only one worker at a time materialises a multi-GiB buffer.
@@ -398,7 +400,8 @@ impl Scenario for Batch {
         }
         let styles: Vec<TextStyle> = if styles.len() < regs.len() { styles.iter().copied().chain(std::iter::repeat(TextStyle::default())).take(regs.len()).collect() } else { styles };
         let reuse_selectors = r.chance(1, 2);
-        Case { regs, styles, prefill, prefill_offsets, policy, calls, prefill_zeros, reuse_selectors }
+        let twins_last = r.chance(1, 2);
+        Case { regs, styles, prefill, prefill_offsets, policy, calls, prefill_zeros, reuse_selectors, twins_last }
     }
 
     fn exec(&self, case: &Case, stats: &mut Stats) -> RunOut<Case> {
@@ -443,6 +446,123 @@ impl Scenario for Batch {
             if !violations.iter().any(|(x, _)| x.class == v.class) {
                 violations.push((v, None));
             }
+        };
+        struct Pending {
+            ci: usize,
+            out: LibOut,
+            before_len: usize,
+            appended: Vec<u8>,
+            new_off: Vec<u64>,
+            op_eff: Op,
+        }
+        let mut pending: Vec<Pending> = vec![];
+        // The same call on a fresh, empty buffer (and a selector built for this call), compared with what the call did
+        // to the shared buffer. Returns false when the batch is to stop (a violation was recorded).
+        let judge = |p: &Pending, args: &[Vec<u8>], stats: &mut Stats, violations: &mut Vec<(Viol, Option<Case>)>| -> bool {
+            let (ci, call) = (p.ci, &case.calls[p.ci]);
+            let name = call.op.name();
+            let mut fresh = Vec::new();
+            let mut fresh_off = Vec::new();
+            let out2 = match guard(|| ops::call(&p.op_eff, args, &case.regs, &mut fresh, &mut fresh_off)) {
+                Err(pn) => {
+                    push(Viol { class: format!("panic:{name}:{}", pn.loc), detail: format!("call {ci} ({name}) panicked at {}: {}", pn.loc, pn.msg) }, violations);
+                    return false;
+                }
+                Ok(b) => b,
+            };
+            let out = &p.out;
+            if *out != out2 {
+                push(
+                    Viol {
+                        class: format!("outcome_depends_on_prior:{name}"),
+                        detail: format!("call {ci} ({name}) returned {:?} on the shared buffer but {:?} on an empty one", out, out2),
+                    },
+                    violations,
+                );
+                return false;
+            }
+            match out {
+                LibOut::Wrote(Ok(())) => {
+                    if call.expect_err {
+                        stats.inc("probe/constructed_error_did_not_fail");
+                    }
+                    // 2. appended bytes are exactly the fresh-buffer bytes
+                    if p.appended[..] != fresh[..] {
+                        push(
+                            Viol {
+                                class: format!("appended_differs:{name}"),
+                                detail: format!(
+                                    "call {ci} ({name}) appended {} bytes after {} prior bytes; the same call writes {} bytes into an empty buffer and they differ",
+                                    p.appended.len(), p.before_len, fresh.len()
+                                ),
+                            },
+                            violations,
+                        );
+                        return false;
+                    }
+                    // 4. offsets are positions in the shared buffer
+                    let new_off = &p.new_off[..];
+                    let want: Vec<u64> = fresh_off.iter().map(|o| o + p.before_len as u64).collect();
+                    if new_off != want.as_slice() {
+                        push(
+                            Viol {
+                                class: format!("offsets_not_buffer_positions:{name}"),
+                                detail: format!("call {ci} ({name}) reported offsets {:?}; expected {:?} (empty-buffer offsets {:?} shifted by the {} prior bytes)", new_off, want, fresh_off, p.before_len),
+                            },
+                            violations,
+                        );
+                        return false;
+                    }
+                    if !new_off.is_empty() {
+                        stats.inc("probe/offsets_reported");
+                        let end = (p.before_len + p.appended.len()) as u64;
+                        let mono = new_off.windows(2).all(|w| w[0] <= w[1]) && new_off[0] >= p.before_len as u64;
+                        if !mono || *new_off.last().unwrap() != end {
+                            push(
+                                Viol {
+                                    class: format!("offsets_do_not_delimit:{name}"),
+                                    detail: format!("call {ci} ({name}) reported offsets {:?} for a buffer that grew from {} to {} bytes", new_off, p.before_len, end),
+                                },
+                                violations,
+                            );
+                            return false;
+                        }
+                        if p.before_len > 0 {
+                            stats.inc("probe/offsets_reported_nonempty_prior");
+                        }
+                    }
+                }
+                LibOut::Wrote(Err(e)) => {
+                    stats.inc2("errors", &format!("{name}:{e}"));
+                    // 3. nothing is appended. Every argument of this call is valid, so an error it returns is one the function
+                    // declares for valid input whether or not the batch was built to provoke it. (A text second argument
+                    // next to a JSONB first one is read as JSONB by these functions -- a misuse, not valid input: exempt.)
+                    let reads = call.op.reads();
+                    let misuse = call.op.second_text_needs_first_text() && reads.len() == 2 && call.text_regs.contains(&reads[1]) && !call.text_regs.contains(&reads[0]);
+                    if misuse {
+                        stats.inc("probe/jsonb_first_text_second_call");
+                    }
+                    if !misuse && (!p.appended.is_empty() || !p.new_off.is_empty()) {
+                        if !call.expect_err {
+                            stats.inc("probe/unexpected_err");
+                        }
+                        push(
+                            Viol {
+                                class: format!("error_after_write:{name}:{e}"),
+                                detail: format!("call {ci} ({name}) returned {e} on valid arguments but left {} new bytes / {} new offsets in the buffer", p.appended.len(), p.new_off.len()),
+                            },
+                            violations,
+                        );
+                        return false;
+                    } else if call.expect_err {
+                        stats.inc("probe/documented_error_injected");
+                    } else {
+                        stats.inc("probe/unexpected_err");
+                    }
+                }
+                LibOut::Returned(_) => unreachable!("batch only drives buffer writers"),
+            }
+            true
         };
         for (ci, call) in case.calls.iter().enumerate() {
             let name = call.op.name();
@@ -498,12 +618,8 @@ impl Scenario for Batch {
                 ops::warm_selector(&op_eff, args, reused, call.warm);
                 ops::call_with(&op_eff, args, &case.regs, &mut data, &mut offsets, reused)
             });
-            // the same call on a fresh, empty buffer (and a selector built for this call)
-            let mut fresh = Vec::new();
-            let mut fresh_off = Vec::new();
-            let out2 = guard(|| ops::call(&op_eff, args, &case.regs, &mut fresh, &mut fresh_off));
-            let (out, out2) = match (out, out2) {
-                (Err(p), _) | (_, Err(p)) => {
+            let out = match out {
+                Err(p) => {
                     digest.str(&p.loc);
                     push(
                         Viol { class: format!("panic:{name}:{}", p.loc), detail: format!("call {ci} ({name}) panicked at {}: {}", p.loc, p.msg) },
@@ -511,7 +627,7 @@ impl Scenario for Batch {
                     );
                     break;
                 }
-                (Ok(a), Ok(b)) => (a, b),
+                Ok(a) => a,
             };
             digest.bytes(&data);
             digest.str(&format!("{:?}", out));
@@ -541,97 +657,21 @@ impl Scenario for Batch {
                 }
                 continue;
             }
-            if out != out2 {
-                push(
-                    Viol {
-                        class: format!("outcome_depends_on_prior:{name}"),
-                        detail: format!("call {ci} ({name}) returned {:?} on the shared buffer but {:?} on an empty one", out, out2),
-                    },
-                    &mut violations,
-                );
-                break;
+            pending.push(Pending { ci, out, before_len: before.len(), appended: data[before.len()..].to_vec(), new_off: offsets[before_off.len()..].to_vec(), op_eff });
+            // the empty-buffer twin runs right away, or -- in half the batches -- only after the whole batch, so that
+            // consecutive calls on the shared buffer follow each other on the thread with nothing in between
+            if !case.twins_last {
+                let p = pending.pop().unwrap();
+                if !judge(&p, own_args[ci].as_deref().unwrap_or(&bin), stats, &mut violations) {
+                    break;
+                }
             }
-            match &out {
-                LibOut::Wrote(Ok(())) => {
-                    if call.expect_err {
-                        stats.inc("probe/constructed_error_did_not_fail");
-                    }
-                    // 2. appended bytes are exactly the fresh-buffer bytes
-                    if data[before.len()..] != fresh[..] {
-                        push(
-                            Viol {
-                                class: format!("appended_differs:{name}"),
-                                detail: format!(
-                                    "call {ci} ({name}) appended {} bytes after {} prior bytes; the same call writes {} bytes into an empty buffer and they differ",
-                                    data.len() - before.len(), before.len(), fresh.len()
-                                ),
-                            },
-                            &mut violations,
-                        );
-                        break;
-                    }
-                    // 4. offsets are positions in the shared buffer
-                    let new_off = &offsets[before_off.len()..];
-                    let want: Vec<u64> = fresh_off.iter().map(|o| o + before.len() as u64).collect();
-                    if new_off != want.as_slice() {
-                        push(
-                            Viol {
-                                class: format!("offsets_not_buffer_positions:{name}"),
-                                detail: format!("call {ci} ({name}) reported offsets {:?}; expected {:?} (empty-buffer offsets {:?} shifted by the {} prior bytes)", new_off, want, fresh_off, before.len()),
-                            },
-                            &mut violations,
-                        );
-                        break;
-                    }
-                    if !new_off.is_empty() {
-                        stats.inc("probe/offsets_reported");
-                        let mono = new_off.windows(2).all(|w| w[0] <= w[1]) && new_off[0] >= before.len() as u64;
-                        if !mono || *new_off.last().unwrap() != data.len() as u64 {
-                            push(
-                                Viol {
-                                    class: format!("offsets_do_not_delimit:{name}"),
-                                    detail: format!("call {ci} ({name}) reported offsets {:?} for a buffer that grew from {} to {} bytes", new_off, before.len(), data.len()),
-                                },
-                                &mut violations,
-                            );
-                            break;
-                        }
-                        if before.len() > 0 {
-                            stats.inc("probe/offsets_reported_nonempty_prior");
-                        }
-                    }
+        }
+        if violations.is_empty() {
+            for p in &pending {
+                if !judge(p, own_args[p.ci].as_deref().unwrap_or(&bin), stats, &mut violations) {
+                    break;
                 }
-                LibOut::Wrote(Err(e)) => {
-                    stats.inc2("errors", &format!("{name}:{e}"));
-                    // 3. nothing is appended. Every argument of this call is valid, so an error it returns is one the function
-                    // declares for valid input whether or not the batch was built to provoke it. (A text second argument
-                    // next to a JSONB first one is read as JSONB by these functions -- a misuse, not valid input: exempt.)
-                    let reads = call.op.reads();
-                    let misuse = call.op.second_text_needs_first_text() && reads.len() == 2 && call.text_regs.contains(&reads[1]) && !call.text_regs.contains(&reads[0]);
-                    if misuse {
-                        stats.inc("probe/jsonb_first_text_second_call");
-                    }
-                    if !misuse && (data != before || offsets != before_off) {
-                        if !call.expect_err {
-                            stats.inc("probe/unexpected_err");
-                        }
-                        {
-                            push(
-                                Viol {
-                                    class: format!("error_after_write:{name}:{e}"),
-                                    detail: format!("call {ci} ({name}) returned {e} for a documented reason but left {} new bytes / {} new offsets in the buffer", data.len() - before.len(), offsets.len() - before_off.len()),
-                                },
-                                &mut violations,
-                            );
-                            break;
-                        }
-                    } else if call.expect_err {
-                        stats.inc("probe/documented_error_injected");
-                    } else {
-                        stats.inc("probe/unexpected_err");
-                    }
-                }
-                LibOut::Returned(_) => unreachable!("batch only drives buffer writers"),
             }
         }
         stats.maxi("buffer_bytes", data.len() as u64);
@@ -722,6 +762,11 @@ impl Scenario for Batch {
             c.reuse_selectors = false;
             out.push(c);
         }
+        if case.twins_last {
+            let mut c = case.clone();
+            c.twins_last = false;
+            out.push(c);
+        }
         // binary instead of text
         for i in 0..case.calls.len() {
             if !case.calls[i].text_regs.is_empty() {
@@ -761,6 +806,7 @@ impl Scenario for Batch {
             "capacity_policy": case.policy,
             "prefill_zero_bytes": case.prefill_zeros,
             "reuse_selectors": case.reuse_selectors,
+            "twins_last": case.twins_last,
             "calls": case.calls.iter().map(|c| json!({"call": c.op.to_json(), "text_regs": c.text_regs, "built_to_fail": c.expect_err, "warm": c.warm,
                 "bad_item": c.bad_item.as_ref().map(|(p, b)| json!({"pos": p, "hex": mval::hex(b)})),
                 "bad_text": c.bad_text.as_ref().map(|(p, b)| json!({"reg": p, "hex": mval::hex(b)}))})).collect::<Vec<_>>(),
@@ -801,6 +847,7 @@ impl Scenario for Batch {
             calls,
             prefill_zeros: j["prefill_zero_bytes"].as_u64().unwrap_or(0),
             reuse_selectors: j["reuse_selectors"].as_bool().unwrap_or(false),
+            twins_last: j["twins_last"].as_bool().unwrap_or(false),
         })
     }
 
